@@ -388,7 +388,7 @@ func c15E2E(c c15Case, steps []c15Step, res map[string]any) {
 							return "delivered", len(r.data), r.addr
 						}
 						return "refused", len(r.data), nil
-					case <-time.After(300 * time.Millisecond):
+					case <-time.After(150 * time.Millisecond):
 						return "refused", 0, nil
 					}
 				}
@@ -539,13 +539,13 @@ func c15E2E(c c15Case, steps []c15Step, res map[string]any) {
 				rxc = f.rx
 				_, serr = remoteUDP.WriteTo(msg, f.peer)
 			}
-			how, got := "error:send", 0
-			if serr == nil {
-				var from net.Addr
-				how, got, from = outcome(rxc, msg, id, mark)
-				if how == "delivered" && f.udp && st.Dir == "up" {
-					f.peer = from // the server's outbound socket of this session, for later "down" steps
-				}
+			// (a send that fails because a refusal already tore the connection down is still a refusal)
+			how, got, from := outcome(rxc, msg, id, mark)
+			if how == "timeout" && serr != nil {
+				how = "error:send"
+			}
+			if how == "delivered" && f.udp && st.Dir == "up" {
+				f.peer = from // the server's outbound socket of this session, for later "down" steps
 			}
 			evs := tap.since(mark)
 			var tx, rx uint64
